@@ -1,4 +1,5 @@
 import MdIt.Proofs.Ruler
+import MdIt.Generated.Tables
 /-!
 # C11 — rule management is coherent over any history, including failed calls
 
@@ -233,5 +234,14 @@ example :
     let r0 := ((Ruler.empty.push "a" 1 []).push "b" 2 []).getRules ""
     let r1 := staleDisable r0.1 ["b", "nope"] false
     (r1.getRules "").2 = [1, 2] ∧ chainOf r1.rules "" = [1] := by decide
+
+/-- **C11.terminator_chain_names** (T1 obligation over the table regenerated from the rule sources) — every block rule
+that runs a terminator chain asks the ruler for the chain named after what it may be interrupted in: paragraph-like rules
+the `paragraph` chain, the reference rule `reference`, the list rule `list`, block quote and table `blockquote`.  What
+`getRules(chain)` *reports* for a chain is therefore what these rules *apply* (the harness also checks it dynamically with
+one spy rule per chain). -/
+theorem terminator_chain_names : Gen.terminatorChains =
+    [("table", "blockquote"), ("blockquote", "blockquote"), ("list", "list"), ("reference", "reference"),
+     ("lheading", "paragraph"), ("paragraph", "paragraph")] := by decide
 
 end MdIt.C11
